@@ -349,6 +349,12 @@ def build_member(A, rec):
         return np.ascontiguousarray(A[rec[1]::rec[2]][:rec[3]])
     if t == "rev":
         return A[rec[1]:rec[2]][::-1]
+    if t == "neg":       # differs from the slice in the last byte of each item
+        return -A[rec[1]:rec[2]]
+    if t == "ulp":       # differs from the slice in the first byte of one item
+        out = A[rec[1]:rec[2]].copy()
+        out[-1] = np.nextafter(out[-1], np.inf)
+        return out
     if t == "f":
         return np.asfortranarray(A[rec[1]:rec[2]].reshape(rec[3]))
     if t == "c2":
@@ -383,8 +389,10 @@ def gen_array_recipe(rng, lo=0, hi=7):
         step = rng.choice([2, 3])
         cnt = rng.randint(1, 3)
         return [rng.choice(["st", "stc"]), i, step, cnt]
-    if r < 0.80:
+    if r < 0.79:
         return ["rev", i, j]
+    if r < 0.83:
+        return [rng.choice(["neg", "ulp"]), i, j]
     if r < 0.86:
         if (j - i) % 2 == 0 and j - i >= 4:
             return [rng.choice(["f", "c2"]), i, j, [2, (j - i) // 2]]
